@@ -84,6 +84,8 @@ CLAIMS = {
             TECH + ": frame obligations on an effect log, call-site forwarding obligations", SYNC_NOTE),
     "C16": ("other", "Export side under contract: _check_directory_structure_validity proved with loop invariants over a token-prefix theory (accepted iff no export path is a proper token prefix of "
             "another, in any order), _check_path_function_unique (refused iff two jobs share a path), _make_path_function (a generated path function is only returned after the one-to-one check), "
+            "_make_schema_based_path_function (three nested loop invariants: a job's automatic path is exactly one (key, str(value)) pair per reported non-excluded key it is listed under, in report order; "
+            "the returned closure executed for an arbitrary job), _AutoPathFormatter.format_field, the three copy executors, "
             "_export_jobs (checks before the first copy, exactly one copy and one report per job); Project.clone / Job.init carry 'never overwrites an existing job'. Import side: _crawl_directory_data_space (an identified job directory is pruned in place from the walk), "
             "_analyze_directory_for_import (refused iff two sources map to one job), _copy_to_job_workspace, _with_consistency_check. The zip / tar analysers (a directory becomes a job iff identified and not below an identified one), export_jobs, the three exporters and the import front ends are under "
             "contract as well; the archive libraries themselves are trusted and whole round trips are decided by the bounded layer. Four defects found this way were repaired (F17, F18, F19, F25).", "DESIGN 4/C16, 11",
@@ -91,7 +93,7 @@ CLAIMS = {
     "C17": ("other", "_update_view proved with loop invariants over three symbolic work lists: every obsolete path removed, every changed link unlinked and re-created, every new link created, "
             "nothing else touched, and an early 'up to date' exit only when all lists are empty; _analyze_view (obsolete = every non-empty dead branch but the root, deepest first; "
             "new / to_update by set algebra), _find_all_links (leaf among sub-directories or files), _make_link and the tree helpers (_color_path, _build_tree over a path-prefix theory; _find_dead_branches by structural "
-            "induction) likewise. create_linked_view and the whole-view statements (one link per job, equals a from-scratch "
+            "induction) likewise, and the automatic path function shared with export (_make_schema_based_path_function: the path spells exactly the job's reported keys and own values). create_linked_view and the whole-view statements (one link per job, equals a from-scratch "
             "build, idempotent) are bounded; F18 / F20 / F21 were found and repaired.", "DESIGN 4/C17, 11",
             TECH + " of _update_view; bounded contract checking of the view as a whole", BASE_TRUST),
     "C18": ("other", "diff_jobs proved against set algebra on flattened (key, value) pairs for 0..3 jobs of arbitrary content (each diff = pairs not shared by all; common + diff reconstructs); "
